@@ -43,6 +43,7 @@ var c14ctx = context.Background()
 type c14Loop struct {
 	id     int
 	delays []time.Duration
+	evt    chan string // "parked" | "exit": what the loop did after it was released
 }
 
 type c14Parked struct {
@@ -53,45 +54,73 @@ type c14Parked struct {
 }
 
 // c14Sim serialises the retry loops of the notifier. It is process-global because the hook is.
+//
+// Quiescence is decided without any time window and without counting all goroutines of the process (the
+// store spawns short-lived helper goroutines for every lock acquisition and close): the loops that exist are
+// counted in a stack dump of all goroutines (every loop goroutine carries "created by …(*notifier).retry"),
+// the loops that have reached a gate are counted by the hooks. A loop that was spawned but has not yet
+// reached its first gate is therefore visible, and waiting for it needs nothing but CPU for that goroutine.
 type c14Sim struct {
-	t        testing.TB
-	mu       sync.Mutex
-	baseline int
-	free     bool // after the restart: gates never block, loops run concurrently
-	parked   []*c14Parked
-	loops    []*c14Loop
-	running  int // serial phase: the loop that holds the baton (-1 = the main goroutine)
+	t       testing.TB
+	mu      sync.Mutex
+	free    bool // after the restart: gates never block, loops run concurrently
+	parked  []*c14Parked
+	loops   []*c14Loop
+	live    int // loops that have entered and not yet left retry.Do
+	running int // serial phase: the loop that holds the baton (-1 = main, -2 = nobody: an instance is being abandoned)
+	check   bool // a receiver returned on the main goroutine: a loop may have been spawned since
+	orphans int  // loop goroutines left behind by a run that did not settle (subtracted from the census)
+	bad     error
+	buf     []byte
 }
 
+const c14SpawnMark = "created by github.com/nuts-foundation/nuts-node/network/dag.(*notifier).retry"
+
+// c14MaxWait only bounds how long a case may hang before it is given up (reported as not exhaustive, never as
+// a failure); nothing is decided by it.
+const c14MaxWait = 180 * time.Second
+
 func newC14Sim(t testing.TB) *c14Sim {
-	s := &c14Sim{t: t, running: -1}
+	s := &c14Sim{t: t, running: -1, buf: make([]byte, 1<<20)}
 	retry.VerifHook = &retry.VerifHooks{Enter: s.enter, Exit: s.exit, After: s.after}
 	t.Cleanup(func() { retry.VerifHook = nil })
-	// baseline: the goroutine count when nothing of the harness runs
-	last, stable := -1, 0
-	for i := 0; i < 2000 && stable < 20; i++ {
-		n := runtime.NumGoroutine()
-		if n == last {
-			stable++
-		} else {
-			last, stable = n, 0
-		}
-		time.Sleep(200 * time.Microsecond)
-	}
-	s.baseline = last
 	return s
 }
 
+// census counts the retry-loop goroutines that exist right now.
+func (s *c14Sim) census() int {
+	for {
+		n := runtime.Stack(s.buf, true)
+		if n < len(s.buf) {
+			return strings.Count(string(s.buf[:n]), c14SpawnMark)
+		}
+		s.buf = make([]byte, 2*len(s.buf))
+	}
+}
+
+func (s *c14Sim) fail(format string, args ...any) {
+	s.mu.Lock()
+	if s.bad == nil {
+		s.bad = fmt.Errorf(format, args...)
+	}
+	s.mu.Unlock()
+}
+
+func (s *c14Sim) failed() error { s.mu.Lock(); defer s.mu.Unlock(); return s.bad }
+
+// reset prepares for the next run; loops that a failed run left behind are written off.
 func (s *c14Sim) reset() {
 	s.mu.Lock()
-	s.free, s.parked, s.loops, s.running = false, nil, nil, -1
+	s.free, s.parked, s.loops, s.running, s.live, s.check, s.bad = false, nil, nil, -1, 0, false, nil
 	s.mu.Unlock()
+	s.orphans = s.census()
 }
 
 func (s *c14Sim) enter() any {
 	s.mu.Lock()
-	l := &c14Loop{id: len(s.loops)}
+	l := &c14Loop{id: len(s.loops), evt: make(chan string, 64)}
 	s.loops = append(s.loops, l)
+	s.live++
 	if s.free {
 		s.mu.Unlock()
 		return l
@@ -103,54 +132,113 @@ func (s *c14Sim) enter() any {
 	return l
 }
 
-func (s *c14Sim) exit(any) {}
+func (s *c14Sim) exit(token any) {
+	l := token.(*c14Loop)
+	s.mu.Lock()
+	s.live--
+	s.mu.Unlock()
+	select {
+	case l.evt <- "exit":
+	default:
+	}
+}
 
 func (s *c14Sim) after(token any, d time.Duration) <-chan time.Time {
 	l := token.(*c14Loop)
 	s.mu.Lock()
-	defer s.mu.Unlock()
 	l.delays = append(l.delays, d)
 	ch := make(chan time.Time, 1)
 	if s.free {
+		s.mu.Unlock()
 		ch <- time.Time{}
 		return ch
 	}
 	s.parked = append(s.parked, &c14Parked{loop: l, kind: "after", timer: ch})
+	s.mu.Unlock()
+	select {
+	case l.evt <- "parked":
+	default:
+	}
 	return ch
 }
 
 func (s *c14Sim) nParked() int { s.mu.Lock(); defer s.mu.Unlock(); return len(s.parked) }
 
-// settle waits until every goroutine beyond the baseline is parked at a gate (or, in free mode, gone).
-func (s *c14Sim) settle() {
-	var deadline time.Time
+// await polls cond (which needs only CPU for other goroutines to become true) with growing pauses.
+func (s *c14Sim) await(what string, cond func() bool) bool {
+	var start time.Time
+	pause := 20 * time.Microsecond
 	for i := 0; ; i++ {
-		if runtime.NumGoroutine()-s.baseline == s.nParked() {
-			return
+		if cond() {
+			return true
 		}
-		if i < 5000 {
+		if i < 20 {
 			runtime.Gosched()
 			continue
 		}
-		if deadline.IsZero() {
-			deadline = time.Now().Add(60 * time.Second)
+		if start.IsZero() {
+			start = time.Now()
 		}
-		time.Sleep(10 * time.Microsecond)
-		if i%500 == 0 && time.Now().After(deadline) {
-			buf := make([]byte, 1<<16)
-			n := runtime.Stack(buf, true)
-			s.t.Fatalf("harness: no quiescence: %d goroutines, baseline %d, parked %d\n%s", runtime.NumGoroutine(), s.baseline, s.nParked(), buf[:n])
+		time.Sleep(pause)
+		if pause < 5*time.Millisecond {
+			pause *= 2
+		}
+		if time.Since(start) > c14MaxWait {
+			s.fail("did not settle: %s", what)
+			return false
 		}
 	}
 }
 
-// onMain is the synchronisation point of the main goroutine in the serial phase: every loop that was spawned
-// since the last point gets parked (and so gets its place in the queue) before main goes on.
-func (s *c14Sim) onMain() {
-	if s.free || s.running >= 0 {
+// allParked: every loop goroutine that exists has reached a gate and is parked there.
+func (s *c14Sim) allParked() bool {
+	if s.failed() != nil {
+		return true // give up waiting: the run is discarded
+	}
+	return s.await("a spawned retry loop did not reach its gate", func() bool {
+		n := s.census() - s.orphans
+		s.mu.Lock()
+		defer s.mu.Unlock()
+		return n == len(s.parked) && s.live == len(s.parked)
+	})
+}
+
+// allGone: no retry loop exists any more.
+func (s *c14Sim) allGone() bool {
+	return s.await("retry loops did not end", func() bool {
+		n := s.census() - s.orphans
+		s.mu.Lock()
+		defer s.mu.Unlock()
+		return n <= 0 && s.live == 0
+	})
+}
+
+// settle: serial phase -> all loops parked; free phase -> all loops gone.
+func (s *c14Sim) settle() {
+	if s.free {
+		s.allGone()
 		return
 	}
-	s.settle()
+	s.allParked()
+}
+
+// onMain is the synchronisation point of the main goroutine in the serial phase. A loop can only have been
+// spawned since the last point if a receiver returned on the main goroutine in between (the notifier starts a
+// loop after a failed synchronous attempt); then main waits until that loop is parked, which gives it its place
+// in the queue before main goes on.
+func (s *c14Sim) onMain() {
+	if s.free || s.running != -1 || !s.check {
+		return
+	}
+	s.check = false
+	s.allParked()
+}
+
+// receiverReturned is called by the receiver wrapper when it returns on the main goroutine.
+func (s *c14Sim) receiverReturned() {
+	if !s.free && s.running == -1 {
+		s.check = true
+	}
 }
 
 // currentLoop is the retry loop that is running (serial phase only; -1 = main).
@@ -167,12 +255,19 @@ func (s *c14Sim) releaseOldest() {
 	s.parked = s.parked[1:]
 	s.running = p.loop.id
 	s.mu.Unlock()
+	for len(p.loop.evt) > 0 {
+		<-p.loop.evt
+	}
 	if p.kind == "enter" {
 		close(p.release)
 	} else {
 		p.timer <- time.Time{}
 	}
-	s.settle()
+	select {
+	case <-p.loop.evt: // it parked at its next delay, or left retry.Do
+	case <-time.After(c14MaxWait):
+		s.fail("did not settle: a released retry loop neither parked nor ended")
+	}
 	s.running = -1
 }
 
@@ -183,14 +278,14 @@ func (s *c14Sim) abandon() {
 	s.mu.Lock()
 	ps := s.parked
 	s.parked = nil
-	s.running = -2 // neither main nor a loop: no synchronisation while the dead instance unwinds
+	s.running = -2
 	s.mu.Unlock()
 	for _, p := range ps {
 		if p.kind == "enter" {
 			close(p.release)
 		}
 	}
-	s.settle()
+	s.allGone()
 	s.running = -1
 }
 
@@ -327,10 +422,15 @@ type c14Run struct {
 }
 
 
+// c14Abort ends a run that cannot be judged (machinery trouble, never a verdict); recovered by c14Execute.
+type c14Abort struct{ err error }
+
+func c14Fail(format string, args ...any) { panic(c14Abort{fmt.Errorf(format, args...)}) }
+
 func (rn *c14Run) open(path string) {
-	inner, err := bbolt.CreateBBoltStore(path, stoabs.WithNoSync(), stoabs.WithLockAcquireTimeout(20*time.Second))
+	inner, err := bbolt.CreateBBoltStore(path, stoabs.WithNoSync(), stoabs.WithLockAcquireTimeout(10*time.Minute))
 	if err != nil {
-		rn.t.Fatal(err)
+		c14Fail("open store: %v", err)
 	}
 	rn.inner = inner
 	rn.kv = fault.Wrap(inner)
@@ -347,11 +447,11 @@ func (rn *c14Run) open(path string) {
 	rn.kv.ReadHook = func(string) { rn.sim.onMain() }
 	s, err := NewState(rn.kv, NewPrevTransactionsVerifier(), NewTransactionSignatureVerifier(nil))
 	if err != nil {
-		rn.t.Fatal(err)
+		c14Fail("set-up: %v", err)
 	}
 	rn.st = s.(*state)
 	if err := rn.st.Configure(core.ServerConfig{}); err != nil {
-		rn.t.Fatal(err)
+		c14Fail("set-up: %v", err)
 	}
 	rn.notifs = nil
 	life, kv := rn.life, rn.kv
@@ -366,7 +466,7 @@ func (rn *c14Run) open(path string) {
 		}
 		n, err := rn.st.Notifier(c14RegName(rn.sc, sp.name), func(e Event) (bool, error) { return rn.receive(sp, life, kv, e) }, opts...)
 		if err != nil {
-			rn.t.Fatal(err)
+			c14Fail("set-up: %v", err)
 		}
 		rn.notifs = append(rn.notifs, n)
 	}
@@ -411,6 +511,7 @@ func (rn *c14Run) receive(sp c14SubSpec, life int, kv *fault.KV, e Event) (bool,
 		res = "ok" // stop a runaway loop; reported as budget violation
 	}
 	rn.calls = append(rn.calls, c14Call{Sub: sp.name, TxName: name, Type: e.Type, Life: life, Result: res, StepsAt: kv.Steps(), Loop: loop})
+	rn.sim.receiverReturned()
 	switch res {
 	case "ok":
 		return true, nil
@@ -429,12 +530,11 @@ func (rn *c14Run) closeInstance() {
 	rn.sim.abandon()
 	rn.st.xorTreeRepair.ticker.Stop()
 	_ = rn.st.Shutdown()
-	ctx, cancel := context.WithTimeout(c14ctx, 20*time.Second)
+	ctx, cancel := context.WithTimeout(c14ctx, c14MaxWait)
 	defer cancel()
 	if err := rn.inner.Close(ctx); err != nil {
-		rn.t.Fatalf("harness: closing the store failed: %v", err)
+		c14Fail("closing the store failed: %v", err)
 	}
-	rn.sim.settle()
 }
 
 // doOp performs one operation of the history on the live instance.
@@ -455,7 +555,7 @@ func (rn *c14Run) doOp(i int) error {
 	case "bad":
 		return rn.st.Add(c14ctx, rn.txs[i], rn.pays[i])
 	}
-	rn.t.Fatalf("unknown op %q", op.Kind)
+	c14Fail("unknown op %q", op.Kind)
 	return nil
 }
 
@@ -534,12 +634,21 @@ func (rn *c14Run) pending() map[string]map[string]int {
 // c14Execute runs one scenario: life 0 with the planned stop (0 = none), restart, Run, quiescence.
 var c14T [8]time.Duration
 
-func c14Execute(t testing.TB, sim *c14Sim, sc c14Scenario, txs []Transaction, pays [][]byte, names map[hash.SHA256Hash]string) *c14Result {
+func c14Execute(t testing.TB, sim *c14Sim, sc c14Scenario, txs []Transaction, pays [][]byte, names map[hash.SHA256Hash]string) (result *c14Result, failure error) {
+	defer func() {
+		if p := recover(); p != nil {
+			a, ok := p.(c14Abort)
+			if !ok {
+				panic(p)
+			}
+			result, failure = nil, a.err
+		}
+	}()
 	tm := time.Now()
 	lap := func(i int) { n := time.Now(); c14T[i] += n.Sub(tm); tm = n }
 	dir, err := os.MkdirTemp("", "c14r")
 	if err != nil {
-		t.Fatal(err)
+		c14Fail("temp dir: %v", err)
 	}
 	defer os.RemoveAll(dir)
 	path := filepath.Join(dir, "dag.db")
@@ -627,7 +736,7 @@ func c14Execute(t testing.TB, sim *c14Sim, sc c14Scenario, txs []Transaction, pa
 	sim.mu.Unlock()
 	for _, n := range rn.notifs {
 		if err := n.Run(); err != nil {
-			t.Fatalf("harness: Run failed: %v", err)
+			c14Fail("Run failed: %v", err)
 		}
 	}
 	sim.settle()
@@ -638,7 +747,7 @@ func c14Execute(t testing.TB, sim *c14Sim, sc c14Scenario, txs []Transaction, pa
 		m := map[string]bool{}
 		evs, err := n.GetFailedEvents()
 		if err != nil {
-			t.Fatalf("harness: GetFailedEvents: %v", err)
+			c14Fail("GetFailedEvents: %v", err)
 		}
 		for _, e := range evs {
 			m[names[e.Hash]] = true
@@ -668,11 +777,14 @@ func c14Execute(t testing.TB, sim *c14Sim, sc c14Scenario, txs []Transaction, pa
 				committed = c > 0 && c < res.StopStep.N
 			}
 			if committed != res.Present["t"+strconv.Itoa(i)] {
-				t.Fatalf("harness: admission bookkeeping disagrees with the store for op %d of %s stop=%d: committed=%v present=%v", i, sc.key(), sc.StopAt, committed, res.Present["t"+strconv.Itoa(i)])
+				c14Fail("admission bookkeeping disagrees with the store for op %d of %s stop=%d: committed=%v present=%v", i, sc.key(), sc.StopAt, committed, res.Present["t"+strconv.Itoa(i)])
 			}
 		}
 	}
-	return res
+	if err := sim.failed(); err != nil {
+		return nil, err
+	}
+	return res, nil
 }
 
 // ---------------------------------------------------------------------------------------------- oracle (App. B.7)
@@ -988,7 +1100,11 @@ func TestVerifC14(t *testing.T) {
 	var rc c14Scenario
 	if r.ReplayCase(&rc) {
 		txs, pays, names := c14MakeTxs(rc.Ops)
-		res := c14Execute(t, sim, rc, txs, pays, names)
+		res, err := c14Execute(t, sim, rc, txs, pays, names)
+		if err != nil {
+			r.NotExhaustive("replay case could not be run: " + err.Error())
+			return
+		}
 		r.Eval(rc.key() + "|" + strconv.Itoa(rc.StopAt) + "|" + strconv.Itoa(rc.StopCall))
 		c14Report(r, rc, res)
 		for _, c := range res.Calls {
@@ -1039,6 +1155,23 @@ func TestVerifC14(t *testing.T) {
 	var runs, fired int64
 	sampled := 0
 	shard, nsh := r.Shard()
+	var skipped int64
+	// try runs one case; machinery trouble (a run that does not settle, a store that does not close, …) is retried on a
+	// fresh store and, if it persists, makes the case a skipped one: not exhaustive, never a failure of the check
+	try := func(sc c14Scenario, txs []Transaction, pays [][]byte, names map[hash.SHA256Hash]string) *c14Result {
+		var last error
+		for attempt := 0; attempt < 3; attempt++ {
+			res, err := c14Execute(t, sim, sc, txs, pays, names)
+			if err == nil {
+				return res
+			}
+			last = err
+		}
+		r.NotExhaustive("some cases could not be run to quiescence (skipped after 3 attempts)")
+		r.Observation("case-skipped", map[string]any{"case": sc, "reason": last.Error()})
+		skipped++
+		return nil
+	}
 	for vi, v := range variants {
 		// scenarios with long scripts have hundreds of stop points: every worker makes their dry run and the stop points
 		// are dealt round-robin; all other scenarios belong to one worker each
@@ -1052,7 +1185,10 @@ func TestVerifC14(t *testing.T) {
 		}
 		txs, pays, names := c14MakeTxs(v.h)
 		sc := c14Scenario{Ops: v.h, Set: v.set, Faulty: v.b.faulty, Script: v.b.script, Drain: v.drain, Order: v.order}
-		dry := c14Execute(t, sim, sc, txs, pays, names)
+		dry := try(sc, txs, pays, names)
+		if dry == nil {
+			continue
+		}
 		if owner {
 			runs++
 			r.Eval("")
@@ -1062,68 +1198,89 @@ func TestVerifC14(t *testing.T) {
 		if dry.PostMortem > 0 {
 			r.Observation("receiver-called-by-abandoned-instance", sc)
 		}
-		labels := make([]string, len(dry.Trace))
-		for i, s := range dry.Trace {
-			labels[i] = s.Label()
-		}
+		labels := c14Labels(dry)
 		if sampled < 2 && v.b.faulty != "" && owner {
 			sampled++
 			r.Sample(map[string]any{"scenario": sc, "write_steps": labels, "receiver_calls": len(dry.Calls)})
 		}
-		for k := 1; k <= len(dry.Trace); k++ {
-			if !mine(k) {
-				continue
-			}
-			sck := sc
-			sck.StopAt = k
-			res := c14Execute(t, sim, sck, txs, pays, names)
-			runs++
-			if !res.Stopped {
-				r.Eval("")
-				r.Observation("stop-not-reached", sck)
-				continue
-			}
-			fired++
-			// determinism: the crashed run saw the same steps as the dry run up to the stop
-			for i := 0; i < k && i < len(res.Trace); i++ {
-				if res.Trace[i].Label() != labels[i] {
-					t.Fatalf("harness: nondeterministic step numbering in %s: step %d is %q, dry run had %q", sck.key(), i+1, res.Trace[i].Label(), labels[i])
+		// runCase makes one crashed run and accepts it only if the stop fired and the run saw the same steps as the dry
+		// run up to the stop; otherwise the dry run and the case are redone, and a case that stays irreproducible is
+		// skipped (not exhaustive + assumption check), never reported as anything else
+		runCase := func(sck c14Scenario) *c14Result {
+			for attempt := 0; attempt < 3; attempt++ {
+				res := try(sck, txs, pays, names)
+				if res == nil {
+					return nil
+				}
+				if res.Stopped && c14SamePrefix(c14Labels(res), labels) {
+					return res
+				}
+				if d2 := try(sc, txs, pays, names); d2 != nil {
+					dry, labels = d2, c14Labels(d2)
 				}
 			}
-			r.Eval(sck.key() + "|" + strconv.Itoa(k))
-			r.Outcome(c14StopClass(res, sck))
-			c14Report(r, sck, res)
+			r.NotExhaustive("the step numbering of some cases was not reproducible (cases skipped after 3 attempts)")
+			r.AssumptionCheck("deterministic step numbering before the crash", false, "first case: "+sck.key()+" stop="+strconv.Itoa(sck.StopAt)+" stopcall="+strconv.Itoa(sck.StopCall))
+			skipped++
+			return nil
 		}
+		nSteps := len(labels)
 		nCalls := 0
 		for _, c := range dry.Calls {
 			if c.Life == 0 {
 				nCalls++
 			}
 		}
-		for j := 1; j <= nCalls; j++ {
-			if !mine(len(dry.Trace) + j) {
+		for k := 1; k <= nSteps+nCalls; k++ {
+			if !mine(k) {
 				continue
+			}
+			if r.Expired() {
+				break
 			}
 			sck := sc
-			sck.StopCall = j
-			res := c14Execute(t, sim, sck, txs, pays, names)
-			runs++
-			if !res.Stopped {
-				r.Eval("")
-				r.Observation("stop-not-reached", sck)
+			tag := strconv.Itoa(k)
+			if k <= nSteps {
+				sck.StopAt = k
+			} else {
+				sck.StopCall = k - nSteps
+				tag = "call" + strconv.Itoa(k-nSteps)
+			}
+			res := runCase(sck)
+			if res == nil {
 				continue
 			}
+			runs++
 			fired++
-			r.Eval(sck.key() + "|call" + strconv.Itoa(j))
+			r.Eval(sck.key() + "|" + tag)
 			r.Outcome(c14StopClass(res, sck))
 			c14Report(r, sck, res)
 		}
 	}
+	r.AddExtra("cases_skipped", skipped)
 	if os.Getenv("C14_TIMING") != "" {
 		fmt.Println("TIMING open0, life0, close0, open1, run1, close1:", c14T[:6])
 	}
 	r.AddExtra("runs", runs)
 	r.AddExtra("stops_fired", fired)
+}
+
+func c14Labels(res *c14Result) []string {
+	out := make([]string, len(res.Trace))
+	for i, s := range res.Trace {
+		out[i] = s.Label()
+	}
+	return out
+}
+
+// c14SamePrefix: the shorter sequence is a prefix of the longer one.
+func c14SamePrefix(a, b []string) bool {
+	for i := 0; i < len(a) && i < len(b); i++ {
+		if a[i] != b[i] {
+			return false
+		}
+	}
+	return true
 }
 
 func c14Report(r *ev.Run, sc c14Scenario, res *c14Result) {
